@@ -586,7 +586,19 @@ class BasePool(typing.Generic[C]):
         started_at: float,
     ) -> None:
         self._log_to_snapshot(dbname=from_block.dbname, event='transfer-from')
-        await self._disconnect(from_conn, from_block)
+        try:
+            await self._disconnect(from_conn, from_block)
+        except Exception:
+            # The connection has left the pool whether or not the backend
+            # closed it cleanly (_disconnect() has already released its
+            # capacity slot), and to_block has been promised a connection
+            # via pending_conns, so carry on with the connect.
+            logger.warning(
+                "Failed to cleanly close a connection to backend "
+                "database %s while transferring it",
+                from_block.dbname,
+                exc_info=True,
+            )
         from_block.log_connection('transferred out')
         self._cur_capacity += 1
         await self._connect(to_block, started_at, 'transferred in')
